@@ -90,7 +90,9 @@ ASSUMPTIONS = [
     "TSFresh (soft dependencies missing), ComposableTimeSeriesForest* (sklearn removed min_impurity_split)",
 ]
 RULE = ("one case = one estimator configuration x one training panel x one apply batch x a list of variants "
-        "(permutation, reversal, sub-selection, singles, repeats, empty, container at apply, container at fit); "
+        "(permutation, reversal, sub-selection, singles, repeats, empty, container at apply, container at fit) x the "
+        "memory layout of every 3-D array handed over (C, Fortran, transposed view, non-contiguous slice; >= 2 "
+        "variables whenever the estimator takes them); "
         "distinct by driver line; non-trivial = batch accepted, at least two distinct output rows and at least "
         "one variant; static cases enumerate every transform/predict/predict_proba of the anchored files")
 LEVEL_TEXT = ("Lean theorems (universally quantified over the per-instance function, members, aggregate, index "
